@@ -163,6 +163,26 @@ Definition ltx_db_encode (x : sx) : sx :=
   | Some e => SL [sxN (enc_err_code e); SL []]
   end.
 
+(** page CONTENT of a full-database encoding (REAL writeLTXFromDB through the hook,
+    database file and WAL filled with self-describing pages):
+    input [snapshot?; ps; commit; page map [[pgno; frame offset] ...]; probe page numbers]
+    output [status; [[pgno; kind; offset] ...]] for the probes: kind 0 = page not in the
+    file, 1 = bytes of the database file at [offset], 2 = bytes of the WAL at [offset] *)
+Definition ltx_db_content (x : sx) : sx :=
+  let ps := asN (nthx 1 x) in
+  let commit := asN (nthx 2 x) in
+  let pm := as_pairs (nthx 3 x) in
+  let frames := db_content ps commit pm in
+  match enc_run (asB (nthx 0 x)) (lockPgno ps) commit 0 (map fst frames) with
+  | Some e => SL [sxN (enc_err_code e); SL []]
+  | None =>
+      SL [sxN 0;
+          SL (map (fun pg => match pm_get pg frames with
+                             | Some (k, off) => SL [sxN pg; sxN k; sxN off]
+                             | None => SL [sxN pg; sxN 0; sxN 0]
+                             end) (asNs (nthx 4 x)))]
+  end.
+
 (** input [snapshot?; ps; commit; prev; pgnos as runs]; output the encoder's verdict on
     the sequence: 0 accepted, else the error class of the first rejected page *)
 Definition ltx_enc_run (x : sx) : sx :=
